@@ -35,9 +35,16 @@ FIXED_SPECIES = {
     "C": [("PCHOL", ["C1", "C2", "C3", "C4"]), ("PCHOM", ["O1", "H1"])],      # five-character names, equal up to the last letter
     "D": [("AAA", ["S1", "S2"])],
     "E": [("QE", ["C1"]), ("XB", ["N1", "C1"])],          # ends in the residue kind B starts with
+    "A2": [("A2R", ["S1", "S2", "S3"])],                   # another species whose topology is also named "A"
     "W": [("SOL", ["OW", "HW1", "HW2"])],
 }
 UNLOADED = {"W"}
+
+
+def molname(sp):
+    """The [ moleculetype ] name of a species: the species key, except that "A2" is a second, different species that
+    also calls itself "A" (two ligands both named LIG): names need not be unique, residue signatures are."""
+    return sp[:-1] if sp.endswith("2") else sp
 
 
 def species_itp(name, residues, rng=None):
@@ -87,7 +94,7 @@ def build_files(species, sequence, seed):
     for sp, residues in species.items():
         p = env.fresh_path(".itp")
         with open(p, "w") as f:
-            f.write(species_itp(sp, residues))
+            f.write(species_itp(molname(sp), residues))
         itps[sp] = p
     return gro, itps, parsed, model
 
@@ -102,7 +109,7 @@ def expected_for(model, records, loaded):
     for sp, first, n, rids in model:
         if sp in loaded:
             recs = records[first:first + n]
-            expected.append((sp, [r[2] for r in recs], [r[1] for r in recs], [r[3] for r in recs],
+            expected.append((molname(sp), [r[2] for r in recs], [r[1] for r in recs], [r[3] for r in recs],
                              [list(r[4:7]) for r in recs], rids))
     return expected
 
